@@ -462,6 +462,7 @@ inductive Obj where
   | ordering (src : LSeq) (fields : List (Lam × Bool))   -- OrderingIterable, not sorted yet
   | view (kind : ViewKind) (d : KV) -- dict view
   | mdict (d : KV)                  -- a plain (mutable, unhashable) dict: what toDict / delete / mergeWith return
+  | opaque (v : Value)              -- a result with plain dicts nested inside (deep mergeWith): only finalised
 deriving Repr, Inhabited
 
 def viewElems : ViewKind → KV → VL
@@ -482,6 +483,7 @@ def Obj.iterable? (ordered : Bool) : Obj → Option (R LSeq)
   | .view k d => some (.ok ⟨viewElems k d, none⟩)
   | .val _ => none
   | .mdict _ => none
+  | .opaque _ => none
 
 /-- error of a method whose receiver is not accepted -/
 def badReceiver : Obj → Err
@@ -540,6 +542,7 @@ def finalise (o : Obj) : R Value := do
     | .view .values d => pure (list (dictValues d))
     | .view k d => pure (Value.set (viewElems k d))
     | .mdict d => pure (dict d)
+    | .opaque v => pure v
     | o => do let s ← o.it; let xs ← s.toList; pure (list xs)
   if finOk v then pure v else .error .type
 
@@ -670,6 +673,7 @@ def generateManyM (producer : Lam) (sel : Option Lam) (decycle depthFirst : Bool
 def intArgs : VL → Option (List Int)
   | [] => some []
   | int i :: r => (intArgs r).map (i :: ·)
+  | Value.bool b :: r => (intArgs r).map ((if b then 1 else 0) :: ·)   -- parameters typed plain `int` take booleans
   | _ => none
 
 def runOp1 (op : Op) (o : Obj) : R Obj :=
@@ -778,7 +782,7 @@ def runOp1 (op : Op) (o : Obj) : R Obj :=
     pure (.lazy (joinM pred sel (LSeq.ofList other) s.items s.err))
   | .repeatTake times n =>
     match o, times, n with
-    | .val (iter _), _, _ | .lazy _, _, _ | .ordering _ _, _, _ | .view _ _, _, _ | .dset _, _, _ | .mdict _, _, _ => .error .outOfDomain
+    | .val (iter _), _, _ | .lazy _, _, _ | .ordering _ _, _, _ | .view _ _, _, _ | .dset _, _, _ | .mdict _, _, _ | .opaque _, _, _ => .error .outOfDomain
     | .val v, some t, none => if t < 0 then .error .outOfDomain else lazyOk (repeatN v t.toNat)
     | .val v, some t, some n => if n < 0 then .error .value else lazyOk (repeatN v (if t < 0 then n.toNat else min t.toNat n.toNat))
     | .val v, none, some n => if n < 0 then .error .value else lazyOk (repeatN v n.toNat)
@@ -857,7 +861,11 @@ def runOp1 (op : Op) (o : Obj) : R Obj :=
           | tuple x, tuple y => if (x ++ y).all hashable then .ok (tuple (distinct (x ++ y))) else .error .type
           | _, _ => .error .outOfDomain
       let imF (a b : Value) : R Value := match im with | some l => l.eval a b | none => .ok b
-      do let r ← mergeDictsM lmF imF 64 lvl d other; pure (.val (dict r))
+      -- a nested merge leaves plain (unhashable) dicts inside the result: the model does not track those
+      let deep := lvl != 1 && d.any fun p => match p.2, dGet other p.1 with
+        | dict _, some (dict _) => true
+        | _, _ => false
+      do let r ← mergeDictsM lmF imF 64 lvl d other; pure (if deep then .opaque (dict r) else .val (dict r))
   | .isIterable =>
     .ok (.val (bool (match o with
       | .val (dict _) => false
@@ -876,11 +884,11 @@ def runOp1 (op : Op) (o : Obj) : R Obj :=
       | _ :: _, _ => pure (.lazy s)
   | .generate pred producer sel decycle limit =>
     match o with
-    | .val (iter _) | .lazy _ | .ordering _ _ | .view _ _ | .dset _ | .mdict _ => .error .outOfDomain
+    | .val (iter _) | .lazy _ | .ordering _ _ | .view _ _ | .dset _ | .mdict _ | .opaque _ => .error .outOfDomain
     | .val v => pure (.lazy (generateM pred producer sel decycle limit v []))
   | .generateManyTake producer sel decycle depthFirst n =>
     match o with
-    | .val (iter _) | .lazy _ | .ordering _ _ | .view _ _ | .dset _ | .mdict _ => .error .outOfDomain
+    | .val (iter _) | .lazy _ | .ordering _ _ | .view _ _ | .dset _ | .mdict _ | .opaque _ => .error .outOfDomain
     | .val v => if n < 0 then .error .value else pure (.lazy (generateManyM producer sel decycle depthFirst 400 n.toNat [v] []))
   -- collections.py
   | .listFn =>
@@ -889,7 +897,7 @@ def runOp1 (op : Op) (o : Obj) : R Obj :=
     | .lazy s => do let xs ← s.toList; pure (.val (tuple xs))
     | .val v => .ok (.val (tuple [v]))
     | .dset l => .ok (.val (tuple [Value.set l]))
-    | .ordering _ _ | .view _ _ | .mdict _ => .error .outOfDomain
+    | .ordering _ _ | .view _ _ | .mdict _ | .opaque _ => .error .outOfDomain
   | .flatten => do
     let s ← o.it
     -- nested iterables are finished data here, so only the source can fail, at its end
@@ -897,7 +905,7 @@ def runOp1 (op : Op) (o : Obj) : R Obj :=
   | .toList => do let s ← o.it; let xs ← s.toList; pure (.val (tuple xs))
   | .listLit extra =>
     match o with
-    | .val (iter _) | .lazy _ | .ordering _ _ | .view _ _ | .dset _ | .mdict _ => .error .outOfDomain
+    | .val (iter _) | .lazy _ | .ordering _ _ | .view _ _ | .dset _ | .mdict _ | .opaque _ => .error .outOfDomain
     | .val v => .ok (.val (tuple (v :: extra)))
   | .dictFn => do
     let s ← (match o.iterable? true with | some r => r | none => .error (match o with | .val (str _) => .outOfDomain | _ => .noFunction) : R LSeq)
@@ -1046,7 +1054,7 @@ def runOp1 (op : Op) (o : Obj) : R Obj :=
     | .lazy s => do let xs ← hashAll s; pure (.dset (sOfList xs))
     | .val v => if hashable v then .ok (.dset [v]) else .error .type
     | .dset l => .ok (.dset [Value.set l])
-    | .ordering _ _ | .view _ _ | .mdict _ => .error .outOfDomain
+    | .ordering _ _ | .view _ _ | .mdict _ | .opaque _ => .error .outOfDomain
   | .toSet => do
     let s ← o.it false
     let xs ← hashAll s
@@ -1109,6 +1117,7 @@ def mutableResult : Op → Bool
 
 def runOp (op : Op) (o : Obj) : R Obj := do
   let r ← match o with
+    | .opaque _ => .error .outOfDomain
     | .mdict d =>
       match op with
       | .setFn => .error .type                                   -- unhashable
